@@ -118,10 +118,10 @@ pub fn plan_for(prop: &str, tier: &str) -> Option<Plan> {
             &["twin_cancelled"],
         ),
         "C14" => (
-            vec![prog(Limits, k(70_000)), prog(General, k(15_000))],
+            vec![prog(Limits, k(70_000)), prog(General, k(15_000)), scn(Scenario::Bytes(3), k(8_000))],
             "exploration",
-            "broker Maximum Packet Size from {2,4,5,6,7,9,16,24,40,64,200,2000}, request sizes around the limit, tiny limits with acks owed, retained packets replayed under a smaller limit, receive buffers 8..4096 with inbound packets up to exactly the buffer size. non-trivial = a request was refused as too large, sent exactly at the limit, or an ack did not fit",
-            &["refused_packet_too_large", "outbound_exactly_at_max", "closed_because_ack_too_large"],
+            "broker Maximum Packet Size from {2,4,5,6,7,9,16,24,40,64,200,2000}, request sizes around the limit, tiny limits with acks owed, retained packets replayed under a smaller limit, receive buffers 8..4096 with inbound packets up to exactly the buffer size; Bytes(3): inbound packets of receive-buffer size -3..+6 for 18 buffer sizes (16..20000) before and after CONNACK. non-trivial = a request was refused as too large, sent exactly at the limit, or an ack did not fit",
+            &["refused_packet_too_large", "outbound_exactly_at_max", "closed_because_ack_too_large", "inbound_just_over_rx_buffer"],
         ),
         "C15" => (
             vec![enumerated(Scenario::FragTwin(0), 32_768), scn(Scenario::FragTwin(1), k(30_000)), enumerated(Scenario::FragTwin(2), 32_768)],
@@ -156,9 +156,9 @@ pub fn plan_for(prop: &str, tier: &str) -> Option<Plan> {
         "C08" => {
             exhaustive = false;
             (
-                vec![enumerated(Scenario::Bytes(0), if q { 131_586 } else { 33_686_018 }), scn(Scenario::Bytes(1), k(60_000)), enumerated(Scenario::Bytes(2), 43_008)],
+                vec![enumerated(Scenario::Bytes(0), if q { 131_586 } else { 33_686_018 }), scn(Scenario::Bytes(1), k(60_000)), enumerated(Scenario::Bytes(2), 43_008), scn(Scenario::Bytes(3), k(8_000))],
                 "fault_enumeration",
-                "Bytes(0): every byte string of length <= 2 (quick) / <= 3 (thorough) fed through the transport before and after CONNACK; Bytes(2): every first byte x length-field forms x shorter/exact/longer body; Bytes(1): valid server packets of every type with random legal property sets, then mutated; oracle = reference classifier (valid => accepted with the values sent; listed malformations => invalid-packet error, dead handle, nothing acted upon, reconnect works; malformation inside a property block => left open; panic => violation)",
+                "Bytes(0): every byte string of length <= 2 (quick) / <= 3 (thorough) fed through the transport before and after CONNACK; Bytes(2): every first byte x length-field forms x shorter/exact/longer body; Bytes(1): valid server packets of every type with random legal property sets, then mutated; Bytes(3): valid packets whose total size is the receive-buffer size -3..+6 for 18 buffer sizes on both sides of the 1/2/3-byte length-field boundaries; oracle = reference classifier (valid => accepted with the values sent; listed malformations => invalid-packet error, dead handle, nothing acted upon, reconnect works; malformation inside a property block => left open; panic => violation)",
                 &["bytes_case"],
             )
         }
